@@ -42,6 +42,43 @@ class NF:
             return ("int", self.esig(c.expr))
         return (type(c).__name__, getattr(c, "value", None))
 
+    # ---- path consistency: what the events so far determine about the data ----
+    EFFECTS = ("set", "setstr", "delete", "append", "hook", "yield")
+
+    def facts(self, ev):
+        """decided tests still valid at the end of ev.  Conservative: any effect forgets every condition; a buffer effect or hook forgets
+        fullness.  Only used to drop branches that contradict an earlier test on the same path (never to add behaviour)."""
+        f = {}
+        for e in ev:
+            k = e[0]
+            if k == "full?":
+                f[("full", e[1])] = e[2]
+            elif k == "if" and e[1][0] != "ElseCondition":
+                f[("if", e[1])] = True
+            elif k == "ifnot":
+                f[("if", e[1])] = False
+            elif k in self.EFFECTS:
+                for key in list(f):
+                    if key[0] == "if" or k in ("hook", "yield") or (len(e) > 1 and key == ("full", e[1])):
+                        del f[key]
+        return f
+
+    @staticmethod
+    def lasso(prefix, period):
+        """canonical form of the infinite event word prefix . period^omega"""
+        prefix, period = list(prefix), list(period)
+        if not period:
+            return tuple(prefix), ()
+        n = len(period)
+        for d in range(1, n + 1):
+            if n % d == 0 and period[:d] * (n // d) == period:
+                period = period[:d]
+                break
+        while prefix and prefix[-1] == period[-1]:
+            prefix.pop()
+            period = [period[-1]] + period[:-1]
+        return tuple(prefix), tuple(period)
+
     # ---- one normalised step ----
     def run_actions(self, actions, ev, sym, k_done, k_jump, out, absorbed):
         """walk `actions`; events appended to ev (copied on branch). k_done(ev) when all ran; k_jump(ev, state, kind) when control is redirected."""
@@ -70,6 +107,11 @@ class NF:
             return self.run_actions(rest, ev + [("hook", a.name)], sym, k_done, k_jump, out, absorbed)
         if isinstance(a, (n.AppendTo, n.AppendCharTo)):
             what = ("byte",) if isinstance(a, n.AppendTo) else self.esig(a.append_value)
+            known = self.facts(ev).get(("full", a.into_storage.name))
+            if known is True:
+                return k_jump(ev, a.end_target, ("oos",))
+            if known is False:
+                return self.run_actions(rest, ev + [("append", a.into_storage.name, what)], sym, k_done, k_jump, out, absorbed)
             k_jump(ev + [("full?", a.into_storage.name, True)], a.end_target, ("oos",))
             return self.run_actions(rest, ev + [("full?", a.into_storage.name, False), ("append", a.into_storage.name, what)], sym, k_done, k_jump, out, absorbed)
         if isinstance(a, n.BreakAction):
@@ -77,10 +119,16 @@ class NF:
             return self.run_actions(list(a.replacement_actions()), ev, sym, lambda ev2: k_jump(ev2, loop_end, ("break",)), k_jump, out, absorbed)
         if isinstance(a, n.ConditionalAction):
             neg = []
+            fx = self.facts(ev)
             for c in a.conditions:
                 cs = self.csig(c)
-                self.run_actions(list(a.sub_actions[c]), ev + neg + [("if", cs)], sym,
+                known = fx.get(("if", cs))
+                if known is False:
+                    continue
+                self.run_actions(list(a.sub_actions[c]), ev + neg + ([] if known else [("if", cs)]), sym,
                                  lambda ev2, rest=rest: self.run_actions(rest, ev2, sym, k_done, k_jump, out, absorbed), k_jump, out, absorbed)
+                if known:
+                    return
                 neg = neg + [("ifnot", cs)]
             if not any(isinstance(c, n.ElseCondition) for c in a.conditions):
                 self.run_actions(rest, ev + neg, sym, k_done, k_jump, out, absorbed)
@@ -96,7 +144,7 @@ class NF:
         self.memo[key] = out
         return out
 
-    def _dispatch(self, q, sym, ev, out, depth, consumed):
+    def _dispatch(self, q, sym, ev, out, depth, consumed, trail=()):
         n = self.n
         if depth > self.limit:
             out.append((ev, ("diverges",)))
@@ -104,11 +152,27 @@ class NF:
         if q is self.fail:
             out.append((ev, ("fail",)))
             return
+        # the same state with the same decided facts, nothing consumed in between: the behaviour from here repeats for ever.
+        # Reported as the canonical form of the infinite event word, so that it does not depend on where the cycle was entered.
+        key = (id(q), frozenset(self.facts(ev).items()))
+        for (k0, n0) in trail:
+            if k0 == key:
+                strip = lambda es: [e for e in es if e != ("oos-redirect",)]
+                pre, per = self.lasso(strip(ev[:n0]), strip(ev[n0:]))
+                out.append((list(pre), ("diverges", per)))
+                return
+        trail = trail + ((key, len(ev)),)
         if isinstance(q, n.DFConditionPoint):
             neg = []
+            fx = self.facts(ev)
             for ct in q.transitions:
                 cs = self.csig(ct.condition)
-                self._take(q, ct, sym, ev + neg + [("if", cs)], out, depth, consumed)
+                known = fx.get(("if", cs))
+                if known is False:
+                    continue
+                self._take(q, ct, sym, ev + neg + ([] if known else [("if", cs)]), out, depth, consumed, trail)
+                if known:
+                    return
                 neg = neg + [("ifnot", cs)]
             if not any(isinstance(ct.condition, n.ElseCondition) for ct in q.transitions):
                 out.append((ev + neg, ("fail",)))
@@ -117,7 +181,7 @@ class NF:
         if t is None:
             out.append((ev, ("stuck-accepting" if id(q) in self.acc else "stuck",)))
             return
-        self._take(q, t, sym, ev, out, depth, consumed)
+        self._take(q, t, sym, ev, out, depth, consumed, trail)
 
     def _skip_empty(self, p):
         """follow pure pass-through states that carry no action (they only exist as join points)"""
@@ -140,7 +204,7 @@ class NF:
             return None
         return t
 
-    def _take(self, q, t, sym, ev, out, depth, consumed):
+    def _take(self, q, t, sym, ev, out, depth, consumed, trail=()):
         n = self.n
         is_end = not isinstance(sym, str) or sym == "NEXT" and False
         tgt = t.target
@@ -154,7 +218,7 @@ class NF:
                 if tgt is None:
                     out.append((ev2, ("stuck",)))
                 else:
-                    self._dispatch(tgt, sym, ev2, out, depth + 1, consumed)
+                    self._dispatch(tgt, sym, ev2, out, depth + 1, consumed, trail)
             else:
                 self._after_consume(tgt, sym, ev2, out, depth)
 
@@ -168,14 +232,14 @@ class NF:
                 if sym == "NEXT":
                     out.append((ev2, ("redirect-next", state)))
                 else:
-                    self._dispatch(state, sym, ev2 + [("oos-redirect",)], out, depth + 1, consumed)
+                    self._dispatch(state, sym, ev2 + [("oos-redirect",)], out, depth + 1, consumed, trail)
                 return
             if kind[0] == "break":
                 if t.is_fallthrough:
                     if sym == "NEXT":
                         out.append((ev2, ("next", state)))
                     else:
-                        self._dispatch(state, sym, ev2, out, depth + 1, consumed)
+                        self._dispatch(state, sym, ev2, out, depth + 1, consumed, trail)
                 else:
                     self._after_consume(state, sym, ev2, out, depth)
                 return
@@ -271,6 +335,9 @@ def compare(nmfu, A, B, max_pairs=20000):
                         return False, _wit(A, B, p, q, s, why, "different finish codes", ra, rb), {}
                 elif kind in ("stuck", "stuck-accepting"):
                     pass
+                elif kind == "diverges":
+                    if la[1:] != lb[1:]:
+                        return False, _wit(A, B, p, q, s, why, "the machines repeat different actions for ever without consuming", ra, rb), {}
                 elif kind == "after-consume":
                     if la[1] != lb[1]:
                         return False, _wit(A, B, p, q, s, why, "outcomes after consumption differ", ra, rb), {}
